@@ -80,11 +80,32 @@ func VerifC06RawBlock() {
 	var b Block
 	var err error
 	var res Results
-	if verifChoice("target", 2) == 0 {
+	switch verifChoice("target", 4) {
+	case 0:
 		err = b.DecodeBlock(r, v, res.Auto())
-	} else {
+	case 1:
 		res = Results{{Data: new(ColStr)}}
 		err = b.DecodeBlock(r, v, res)
+	case 2: // a typed target that already holds a row of an earlier block
+		used := new(ColStr)
+		used.Append("x")
+		res = Results{{Data: used}}
+		err = b.DecodeBlock(r, v, res)
+	case 3: // inferred targets that an earlier block has bound and filled
+		var w refBuf
+		w.vint(1)
+		w.vint(1)
+		w.str("a")
+		w.str("UInt8")
+		if v >= refRevCustomSerial {
+			w.u8(0)
+		}
+		w.u8(7)
+		var first Block
+		if first.DecodeRawBlock(NewReader(bytes.NewReader(w.b)), v, res.Auto()) != nil {
+			return
+		}
+		err = b.DecodeBlock(r, v, res.Auto())
 	}
 	if err != nil {
 		verifNote("rejected")
